@@ -1071,8 +1071,23 @@ impl<'t, 'c> Gen<'t, 'c> {
                     body.push(Stmt::Assign(LValue { name: pa.name.clone(), var: pa.var, index: vec![], fields: vec![], sty: pa.sty.clone() }, e));
                 }
             }
+            // a result that is assigned in some activations only (depending on a parameter): an activation that assigns
+            // nothing returns zero / the empty string, whatever an earlier activation returned (also for STATIC ones)
+            let mut conditional_result = false;
             if let Some(rv) = self.prog.procs[p].result_var {
-                if self.t.chance(4, 5) {
+                let num_params: Vec<Param> = self.prog.procs[p].params.iter().filter(|q| q.sty.ety().map(|t| t.is_numeric()).unwrap_or(false)).cloned().collect();
+                if !num_params.is_empty() && self.t.chance(1, 3) {
+                    conditional_result = true;
+                    let pa = num_params[self.t.choose(num_params.len())].clone();
+                    let ty = self.prog.procs[p].ret.unwrap();
+                    let e = if ty == Ty::Str { self.bounded_str(1) } else { self.num_expr(ty, 1) };
+                    let name = self.prog.procs[p].name.clone();
+                    let cond = Expr::Bin(*self.t.pick(&[BinOp::Gt, BinOp::Le, BinOp::Ne]), Box::new(Expr::Load(LValue { name: pa.name.clone(), var: pa.var, index: vec![], fields: vec![], sty: pa.sty.clone() })), Box::new(Expr::Lit(Lit::Whole(*self.t.pick(&[1i64, 0, 2, 5])))));
+                    body.insert(1, Stmt::IfLine { cond, then_: vec![Stmt::Assign(LValue { name, var: rv, index: vec![], fields: vec![], sty: STy::B(ty) }, e)], else_: None });
+                }
+            }
+            if let Some(rv) = self.prog.procs[p].result_var {
+                if self.t.chance(if conditional_result { 1 } else { 4 }, 5) {
                     let ty = self.prog.procs[p].ret.unwrap();
                     let e = if ty == Ty::Str { self.bounded_str(1) } else { self.num_expr(ty, 1) };
                     let name = self.prog.procs[p].name.clone();
